@@ -57,3 +57,10 @@ claimed["C04"] = (
     "struct-mapped objects range over a fixed pool of Go types; nesting depth 2000 (quadratic error-message building makes deeper inputs slow but terminating, which is not demanded)",
     "DESIGN.md §3 C04",
 )
+claimed["C01"] = (
+    "exploration",
+    "metamorphic runtime monitor: unserialize/validate/serialize/re-unserialize chains in memory and through the CBOR encoding ATP uses, typed vs untyped entry points compared by reflection",
+    "For generated schemas of every kind (incl. struct-mapped objects over a pool of Go types, one-of, references, hand-written tricky reference shapes) and 9 typed-constructor schemas, generated valid inputs in random representations, their CBOR images and near-boundary perturbations are pushed through v=U(r); Validate(v); w=S(v); U(w)=v; U(cbor(w))=v; S idempotent; cbor(w) stable; UnserializeType/ValidateType/SerializeType agree with the untyped calls. No reference model is involved. Held on the chains run (sampled).",
+    "equality is typed deep equality with NaN=NaN, -0=0, nil slice/map = empty; struct-mapped optional properties on non-pointer fields are made required or treat-empty-as-default by the generator (a Go struct cannot represent their absence); one-of members sharing a Go struct type are not generated (the SDK cannot tell them apart when serializing)",
+    "DESIGN.md §3 C01",
+)
